@@ -50,10 +50,38 @@ def file_edge_type(ctx, fx):
     ctx.floor("... of which with a file edge type different from the in-memory type", differ, 3)
 
 
+def whole_graph_loops(ctx, fx):
+    ctx.rule("C11.sort-all.covers-every-node",
+             "the whole-graph maintenance loops of the LC graphs (sortAllEdgesByDst, sortAllInEdgesByDst, sortAll...) run over "
+             "every node: their do_all range is an explicit whole range (iterate(0, size()) or iterate(begin(), end())), not "
+             "iterate(*this), which hands each thread its stored local_begin()..local_end() -- for the NUMA-blocked layout "
+             "those are indexed by thread id, set only by some construction paths and never recomputed, so nodes of threads "
+             "that are not active any more (or of a graph built through constructEdge) are never visited and stay unsorted")
+    n = 0
+    for f in fx.functions:
+        if f["kind"] == "pattern" or not re.search(r"galois/graphs/LC_\w+\.h$", f["file"]) or not f["name"].startswith("sortAll"):
+            continue
+        fn = ctx.fn(f)
+        its = [e for _, e in fn.events(lambda e: e.get("k") == "call" and e.get("name") == "iterate")]
+        if not its:
+            continue
+        n += 1
+        det = []
+        for e in its:
+            a = [S(x) for x in e.get("a", [])]
+            if len(a) == 1 and a[0].replace("(", "").replace(")", "") in ("*this", "this"):
+                det.append("the loop runs over iterate(*this): each thread only visits its stored local range")
+            elif len(a) != 2:
+                det.append("range is iterate(%s)" % ", ".join(a))
+        ctx.ob("C11.sort-all.covers-every-node", f["qn"], not det, "; ".join(det), fn.loc(), f["name"], fnkey=f["key"])
+    ctx.floor("sortAll* loops of the LC graphs", n, 2)
+
+
 def run(ctx):
     ctx.explanation = EXPL
     fx = ctx.load("src", "drv_lcgraph", "drv_morph")
     file_edge_type(ctx, fx)
+    whole_graph_loops(ctx, fx)
     ctx.rule("C11.race.owner-or-atomic",
              "parallel body: every non-local write is OWNER / CSR / CLAIMED / ATOMIC / THREAD; an index loaded from shared data "
              "with a plain write, or a neighbour read of an array written in the same body, is a race")
